@@ -120,16 +120,38 @@ class TokIO:
     def truncate(self, n=None):
         if n is None:
             n = self.tell()
-        if n != 0:
-            raise NotImplementedError
-        self.toks = []
-        return 0
+        if n == 0:
+            self.toks = []
+            self.pos = 0
+            return 0
+        # truncate at a token boundary: keep the longest prefix whose size is n
+        s = 0
+        for i, t in enumerate(self.toks):
+            if s == n:
+                self.toks = self.toks[:i]
+                self.pos = min(self.pos, i)
+                return n
+            s = s + tok_size(t)
+        if s == n:
+            return n
+        raise NotImplementedError("truncate inside a token")
 
     def seek(self, off, whence=0):
         if whence == 0 and off == 0:
             self.pos = 0
         elif whence == 2 and off == 0:
             self.pos = len(self.toks)
+        elif whence == 0:
+            s = 0
+            for i, t in enumerate(self.toks):
+                if s == off:
+                    self.pos = i
+                    return off
+                s = s + tok_size(t)
+            if s == off:
+                self.pos = len(self.toks)
+                return off
+            raise NotImplementedError("seek inside a token")
         else:
             raise NotImplementedError
         return self.tell()
